@@ -48,6 +48,22 @@ def delete_pairing(F):
         r.ob(ok2, {"fn": name, "marks its own import deleted": ok2})
         if not ok2:
             r.violate("%s | import delete" % fn["path"], F.loc(fn), "%s does not mark the import of an imported element deleted via that element's own import_id: the import would stay in the import section (shifting every index) or a different import would be removed" % name)
+        # scope: a delete touches its own collection and the import list, nothing else ("leaves every other entity present")
+        MUT = ("delete", "remove", "push", "insert", "clear", "retain", "add", "truncate", "pop", "drain", "swap_remove", "set_kind", "delete_func", "delete_global", "delete_memory")
+        foreign = []
+        for c in walk(fn["body"]):
+            if c.get("k") == "MethodCall" and (c["method"] in MUT or c["method"].startswith(("add_", "delete_", "remove_"))):
+                pp = place_path(c["recv"]) or ""
+                if pp.startswith("self.") and pp.split(".")[1] not in (coll, "imports"):
+                    foreign.append(pp + "." + c["method"])
+            if c.get("k") == "Assign":
+                pp = place_path(c["lhs"]) or ""
+                if pp.startswith("self.") and pp.split(".")[1].split("[")[0] not in (coll, "imports"):
+                    foreign.append(pp + " =")
+        ok3 = not foreign
+        r.ob(ok3, {"fn": name, "touches_only": [coll, "imports"]})
+        if not ok3:
+            r.violate("%s | scope %s" % (fn["path"], "+".join(sorted(set(foreign)))), F.loc(fn), "%s also mutates %s: deleting one entity must leave every other entity (exports, other collections) present" % (name, sorted(set(foreign))))
     for adt, field in (("ModuleExports", "exports"), ("ModuleImports", "imports")):
         fn = F.one_fn(name="delete", self_adt=adt)
         r.analysed.append(fn["path"])
@@ -339,6 +355,37 @@ def type_dedup(F):
     r.ob(okc)
     if not okc:
         r.violate("%s | dedup" % at["path"], F.loc(at), "add_type does not consult types_map for an existing identical type")
+    # the id a new entry is registered under: `or_insert(TypeID(X))` — X must be self.types.len() (the number of types,
+    # not the size of the dedup map, which is smaller when the parsed module repeats a type), whether it is computed in
+    # add_type itself or passed by every caller
+    def _is_types_len(e):
+        e = peel(e)
+        while isinstance(e, dict) and e.get("k") == "Cast":
+            e = peel(e["a"])
+        return isinstance(e, dict) and e.get("k") == "MethodCall" and e["method"] == "len" and (place_path(e["recv"]) or "") == "self.types"
+
+    id_param = None
+    id_local_ok = None
+    for x in walk(at["body"]):
+        if x.get("k") == "MethodCall" and x["method"] in ("or_insert", "or_insert_with", "insert") and x["args"]:
+            if x["method"] == "insert" and not (place_path(x["recv"]) or "").endswith("types_map"):
+                continue
+            for y in walk(x["args"][-1]):
+                if y.get("k") == "Path" and y.get("res", {}).get("r") == "local":
+                    hid = y["res"]["hid"]
+                    for j, pm in enumerate(at["params"]):
+                        if pm["pat"].get("hid") == hid:
+                            id_param = j
+                    for st in walk(at["body"]):
+                        if st.get("k") == "Let" and st["pat"].get("hid") == hid and "init" in st:
+                            id_local_ok = _is_types_len(st["init"])
+                elif _is_types_len(y):
+                    id_local_ok = True
+    if id_param is None:
+        ok = bool(id_local_ok)
+        r.ob(ok, {"add_type": "id computed inside add_type", "is self.types.len()": ok})
+        if not ok:
+            r.violate("%s | id" % at["path"], F.loc(at), "add_type registers a new type under an id that is not self.types.len(): when the module already repeats a type the dedup map is smaller than the type table, so a fresh type is given an index that is already in use")
     # callers
     n_c = 0
     for fn in F.find_fns(self_adt=MT):
@@ -348,11 +395,14 @@ def type_dedup(F):
             if c.get("k") == "MethodCall" and c["method"] == "add_type" and (place_path(c["recv"]) or "") == "self":
                 n_c += 1
                 r.analysed.append(fn["path"])
-                a = peel(c["args"][1])
-                ok = a.get("k") == "MethodCall" and a["method"] == "len" and (place_path(a["recv"]) or "") == "self.types"
-                r.ob(ok, {"fn": fn["name"], "new id": snippet(_repo(), fn["file"], c["args"][1]["sp"])})
-                if not ok:
-                    r.violate("%s | id" % fn["path"], F.loc(fn, c), "%s passes %s as the new type's id (expected self.types.len())" % (fn["name"], snippet(_repo(), fn["file"], c["args"][1]["sp"])))
+                if id_param is not None:
+                    args = [c["recv"]] + list(c["args"])
+                    if id_param < len(args):
+                        a = args[id_param]
+                        ok = _is_types_len(a)
+                        r.ob(ok, {"fn": fn["name"], "new id": snippet(_repo(), fn["file"], a["sp"])})
+                        if not ok:
+                            r.violate("%s | id" % fn["path"], F.loc(fn, c), "%s passes %s as the new type's id (expected self.types.len())" % (fn["name"], snippet(_repo(), fn["file"], a["sp"])))
                 # short forms: constants
                 if not fn["name"].endswith("_with_params"):
                     for s in walk(fn["body"]):
